@@ -14,6 +14,8 @@ import GocoinV.Proofs.C16Listing
 import GocoinV.Proofs.C16SnappyLen
 import GocoinV.Proofs.C16Trust
 import GocoinV.Proofs.C16Window
+import GocoinV.Proofs.C16Top
+import GocoinV.Proofs.C16Stale
 namespace GocoinV.Props.C16
 open GocoinV GocoinV.BlockDB
 
@@ -47,6 +49,11 @@ theorem reopen_index_witness_fixed :
 /-- The regenerated structural fact: the current source advances past invalid records. Everything below that
     speaks about "the fixed code" is stated for environments that agree with this generated constant. -/
 theorem fixed_code : Gen.BlockDBFacts.advInvalid = true := by decide
+
+/-- The regenerated constants agree: `writeOne` advances the index position by the same number of bytes (`writeRecSize`, its
+    `db.maxidxfilepos += n`) as LoadBlockIndex does per record (`recSize`, also the length of its `var b [n]byte` — checked by
+    the generator). The model's `writeRecord` uses `RECSIZE = recSize` for both. -/
+theorem write_advance_is_record_size : Gen.BlockDBFacts.writeRecSize = Gen.BlockDBFacts.recSize ∧ RECSIZE = 136 := by decide
 
 /-! ## reopen_index, the position part: appending never overwrites a stored record -/
 
@@ -322,6 +329,81 @@ theorem reopen_index_trusted (env : Env) (hfix : env.advInvalid = Gen.BlockDBFac
   obtain ⟨r, b1, b2, b3, b4, b5, b6⟩ := reopen_index_flags env hadv _ _ _ hC (by omega) hclosed o k e r0 he ht a1
   exact ⟨r0, r, a1, b1, by rw [b2]; exact hT k e r0 he ht a1, b3, b4, b5, b6⟩
 
+/-- … and ONLY the non-invalid blocks (second audit, item 1b): a block that `BlockInvalid` flagged AFTER it was written
+    (`flagsInvalid`: in the index, untrusted, written — `setBlockFlag` ORs BLOCK_INVALID into the record on disk) and that was
+    not handed to `BlockAdd` again since is NOT listed by the restart. `staleFinal env init [] ops` is that ghost list of
+    keys along the history (Proofs/C16Stale.lean; it reads the model state like `forgets` does). Together with `reopen_index`:
+    the walk has exactly one entry for every stored, never-invalidated key, none for an invalidated one, and nothing else but
+    keys that were added. (A key that is marked invalid, survives a restart and is then stored AGAIN gets a new record and is
+    listed with the new fields — the specification keeps its entry tainted and claims nothing for it: `relisted_after_restart_witness`.) -/
+theorem reopen_index_excludes_invalid (env : Env) (hfix : env.advInvalid = Gen.BlockDBFacts.advInvalid) (ops : List Op)
+    (hops : ∀ op ∈ ops, Op.wf env op) (hlen : ops.length < 2^31)
+    (hclosed : (run env init ops).1.isOpen = false) (o : Opts) (ws : List WalkRec)
+    (hws : (step env (run env init ops).1 (.reopen o)).2 = .walk ws) :
+    ∀ w ∈ ws, keyOf w.hash ∉ staleFinal env init [] ops := by
+  have hadv : env.advInvalid = true := by rw [hfix]; exact fixed_code
+  have hC := run_core env hadv ops init {} 0 (init_core env) hops (by omega)
+  have hS := run_stale env hadv ops init {} 0 [] (fun k hk => by cases hk) (init_core env) hops (by omega)
+  have e : step env (run env init ops).1 (.reopen o) = reopen env (run env init ops).1.fs o := by
+    unfold step; simp [hclosed]
+  rw [e] at hws
+  exact reopen_lists_no_stale env _ _ _ _ hS hC o ws hws
+
+def optsW4 : Opts := ⟨4, 0, 0, false, false⟩
+/-- add A, add B, flush, BlockInvalid(A) (A is written: its record is flagged on disk), close -/
+def invalidatedHistory : List Op :=
+  [.reopen optsW4, .add (hashW blkA) 10 1 false blkA, .add (hashW blkB) 11 2 false blkB, .idle, .invalid (hashW blkA), .close]
+
+set_option maxRecDepth 1000000 in
+/-- non-vacuity: the ghost list holds A's key, the restart lists B only; the specification has A tainted -/
+example : staleFinal (toyEnv true) init [] invalidatedHistory = [keyOf (hashW blkA)] ∧
+    (step (toyEnv true) (run (toyEnv true) init invalidatedHistory).1 (.reopen optsW4)).2
+      = .walk [⟨hashW blkB, blkB.take 80, 11, 82, 2⟩] ∧
+    ((AL.get (specFinal (toyEnv true) init {} invalidatedHistory).m (keyOf (hashW blkA))).map (fun e => e.tainted)) = some true ∧
+    (run (toyEnv true) init invalidatedHistory).1.isOpen = false := by decide
+
+/-- same header as `blkA`, other body -/
+def blkA' : Bytes := blkA.take 80 ++ List.replicate 15 4
+set_option maxRecDepth 1000000 in
+/-- … the invalidated block survives a restart as a flagged record, the same hash is stored again (a new record), and the
+    next restart lists the NEW block; the key left the ghost list with the second BlockAdd, the specification keeps the
+    entry tainted (no claim for `get`) -/
+theorem relisted_after_restart_witness :
+    let h := invalidatedHistory ++ [.reopen optsW4, .add (hashW blkA') 12 3 false blkA', .close]
+    hashW blkA' = hashW blkA ∧ staleFinal (toyEnv true) init [] h = [] ∧
+    (step (toyEnv true) (run (toyEnv true) init h).1 (.reopen optsW4)).2
+      = .walk [⟨hashW blkB, blkB.take 80, 11, 82, 2⟩, ⟨hashW blkA, blkA.take 80, 12, 95, 3⟩] ∧
+    ((AL.get (specFinal (toyEnv true) init {} h).m (keyOf (hashW blkA))).map (fun e => e.tainted)) = some true := by decide
+
+/-- `reopen_index` + `reopen_index_excludes_invalid` with the codec the store really uses (the snappy model, the environment
+    `oracle_c16` runs): the only hypotheses left are `Op.wfPlain` (hash of the header, block ≤ 2^29 bytes, height < 2^32) and
+    fewer than 2^31 operations. -/
+theorem reopen_index_snappy (hash : Bytes → Bytes) (ops : List Op)
+    (hops : ∀ op ∈ ops, Op.wfPlain hash op) (hlen : ops.length < 2^31)
+    (hclosed : (run (snappyEnv hash Gen.BlockDBFacts.advInvalid) init ops).1.isOpen = false) (o : Opts) :
+    let env := snappyEnv hash Gen.BlockDBFacts.advInvalid
+    ∃ ws, (step env (run env init ops).1 (.reopen o)).2 = .walk ws ∧
+      (∀ k e, AL.get (specFinal env init {} ops).m k = some e → e.tainted = false →
+        ws.filter (fun w => decide (keyOf w.hash = k)) =
+          [⟨env.hash (e.raw.take 80), e.raw.take 80, e.height, e.raw.length, e.txcount⟩]) ∧
+      (∀ w ∈ ws, ∃ e, AL.get (specFinal env init {} ops).m (keyOf w.hash) = some e) ∧
+      (∀ w ∈ ws, keyOf w.hash ∉ staleFinal env init [] ops) ∧
+      (step env (run env init ops).1 (.reopen o)).1.maxidxfilepos = (run env init ops).1.fs.idx.length := by
+  intro env
+  have hwf : ∀ op ∈ ops, Op.wf env op := by
+    intro op hop
+    have h1 := hops op hop
+    cases op with
+    | add h height tx tr raw =>
+      obtain ⟨a1, a2, a3⟩ := h1
+      refine ⟨a1, by omega, ?_, a3⟩
+      have := Snappy.encode_length_le raw (by omega)
+      show (Snappy.encode raw).length ≤ 0xffffffff
+      omega
+    | _ => trivial
+  obtain ⟨ws, w1, w2, w3, w4⟩ := reopen_index env rfl ops hwf hlen hclosed o
+  exact ⟨ws, w1, w2, w3, reopen_index_excludes_invalid env rfl ops hwf hlen hclosed o ws w1, w4⟩
+
 /-! ## retention (DataFilesKeep ≠ 0, backup of old files): store_refines_map at full strength -/
 
 /-- store_refines_map, EVERY history and EVERY option combination: from the empty directory, any sequence of add / get /
@@ -463,6 +545,82 @@ theorem backup_restored_witness :
     data-file number, so the file to append to never goes back to a lower number after a restart. -/
 theorem fixed_code_invalid_counts : Gen.BlockDBFacts.invalidCountsFile = true := by decide
 
+/-! ## data-file numbers are never reused (second audit, item 1a) -/
+
+/-- EVERY history, every option combination: each data-file number in the ghost list `FS.lost` is strictly BELOW the current
+    file number `maxdatfileidx` — in open and in closed states, after any number of restarts. Since `writeOne` stores a
+    block into the file `maxdatfileidx` (after a possible roll-over to `maxdatfileidx + 1`), no block is ever stored into a
+    file whose number was lost: the exclusion of `store_refines_map` (`keyLost`) cannot swallow a block that was stored
+    AFTER its file number left retention. The proof needs the regenerated fact `invalidCountsFile` (`fixed_code_invalid_counts`):
+    across close + reopen LoadBlockIndex recomputes `maxdatfileidx` as the maximum over ALL records of the index file,
+    invalid-flagged ones included (`loadRecord_mdi`); for a source without the repair 72419de0 the fact is `false`, this
+    theorem does not compile, and indeed the statement is false there (corpus/C16/file-number-reused-*.json). -/
+theorem lost_below_current (env : Env) (hfix : env.advInvalid = Gen.BlockDBFacts.advInvalid) (ops : List Op)
+    (hops : ∀ op ∈ ops, Op.wf env op) (hlen : ops.length < 2^31) (i : Nat)
+    (h : i ∈ (run env init ops).1.fs.lost) : i < (run env init ops).1.maxdatfileidx := by
+  have hadv : env.advInvalid = true := by rw [hfix]; exact fixed_code
+  exact (run_top env hadv fixed_code_invalid_counts fixed_code_restore ops init {} 0 init_top (init_core env) hops
+    (by omega)).1.below i h
+
+/-- The current file number never goes down: not within a session, and not across close + reopen (where it is recomputed
+    from the index file). `pre ++ suf` is any continuation of the history `pre`. -/
+theorem current_file_never_decreases (env : Env) (hfix : env.advInvalid = Gen.BlockDBFacts.advInvalid) (pre suf : List Op)
+    (hops : ∀ op ∈ pre ++ suf, Op.wf env op) (hlen : (pre ++ suf).length < 2^31) :
+    (run env init pre).1.maxdatfileidx ≤ (run env init (pre ++ suf)).1.maxdatfileidx := by
+  have hadv : env.advInvalid = true := by rw [hfix]; exact fixed_code
+  simp only [List.length_append] at hlen
+  have hp : ∀ op ∈ pre, Op.wf env op := fun op h => hops op (by simp [h])
+  have hs : ∀ op ∈ suf, Op.wf env op := fun op h => hops op (by simp [h])
+  have t := (run_top env hadv fixed_code_invalid_counts fixed_code_restore pre init {} 0 init_top (init_core env) hp (by omega)).1
+  have c := run_core env hadv pre init {} 0 (init_core env) hp (by omega)
+  rw [run_append]
+  exact (run_top env hadv fixed_code_invalid_counts fixed_code_restore suf _ _ _ t c hs (by omega)).2
+
+/-- No reuse, per operation: after any history `ops` and one more operation `op`, every WRITTEN index record `r'` either was
+    written before `op` with the same data-file number, or its number is at least the file number that was current before
+    `op` — and therefore (by `lost_below_current`) not a number that was lost before `op`. -/
+theorem written_record_file_is_fresh (env : Env) (hfix : env.advInvalid = Gen.BlockDBFacts.advInvalid) (ops : List Op) (op : Op)
+    (hops : ∀ o ∈ ops, Op.wf env o) (hlen : ops.length < 2^31) (k : Key) (r' : Rec)
+    (h1 : AL.get (step env (run env init ops).1 op).1.index k = some r') (h2 : r'.ipos.isSome = true) :
+    (∃ r, AL.get (run env init ops).1.index k = some r ∧ r.ipos.isSome = true ∧ r.datfileidx = r'.datfileidx) ∨
+    ((run env init ops).1.maxdatfileidx ≤ r'.datfileidx ∧ r'.datfileidx ∉ (run env init ops).1.fs.lost) := by
+  have hadv : env.advInvalid = true := by rw [hfix]; exact fixed_code
+  have t := (run_top env hadv fixed_code_invalid_counts fixed_code_restore ops init {} 0 init_top (init_core env) hops (by omega)).1
+  have c := run_core env hadv ops init {} 0 (init_core env) hops (by omega)
+  rcases (step_fresh env hadv fixed_code_invalid_counts fixed_code_restore _ _ _ t c op (by omega)).2 k r' h1 h2 with a | a
+  · exact .inl a
+  · refine .inr ⟨a, fun hl => ?_⟩
+    have := t.below _ hl
+    omega
+
+set_option maxRecDepth 1000000 in
+/-- non-vacuity of the three theorems above on `retentionHistory` (keep = 1, no backup; file 0 is lost): the lost number 0 is
+    below the current number 2 — also after the restart —, and the record of block 3, written by the `idle` flush, carries
+    the number 2 ≥ 0 = the number that was current before the flush -/
+example : (run (toyEnv true) init retentionHistory).1.fs.lost = [0] ∧
+    (run (toyEnv true) init retentionHistory).1.maxdatfileidx = 2 ∧
+    (run (toyEnv true) init (retentionHistory.take 4)).1.maxdatfileidx = 0 ∧
+    ((AL.get (run (toyEnv true) init (retentionHistory.take 5)).1.index (keyOf (hashW (blk200 3)))).map (fun r => (r.datfileidx, r.ipos.isSome)))
+      = some (2, true) := by decide
+
+/-- the history of the FORMER defect (file number reuse): keep = 1, NO backup, three blocks in files 0, 1, 2 (file 0 removed),
+    B and C marked invalid, restart, add D, flush -/
+def reuseHistory : List Op :=
+  [.reopen optsK, .add (hashW (blk200 1)) 1 1 false (blk200 1), .add (hashW (blk200 2)) 2 1 false (blk200 2),
+   .add (hashW (blk200 3)) 3 1 false (blk200 3), .idle, .invalid (hashW (blk200 2)), .invalid (hashW (blk200 3)), .close,
+   .reopen optsK, .add (hashW (blk200 4)) 4 1 false (blk200 4), .idle, .get (hashW (blk200 4)), .get (hashW (blk200 1))]
+
+set_option maxRecDepth 1000000 in
+/-- … on the model of the CURRENT source: after the restart the current file is still 2 (the invalid records of B and C
+    count), D goes to file 2 or above — not into the lost number 0 —, D is claimed and returned, and the read of A (file 0,
+    outside retention) is an error, not other bytes. -/
+theorem no_reuse_witness :
+    (run (toyEnv true) init (reuseHistory.take 9)).1.maxdatfileidx = 2 ∧
+    (run (toyEnv true) init reuseHistory).1.fs.lost = [0] ∧
+    ((AL.get (run (toyEnv true) init reuseHistory).1.index (keyOf (hashW (blk200 4)))).map (fun r => decide (2 ≤ r.datfileidx))) = some true ∧
+    (specRunR (toyEnv true) init {} reuseHistory).drop 11 = [.data (blk200 4) false, .nothing] ∧
+    (run (toyEnv true) init reuseHistory).2.drop 11 = [.data (blk200 4) false, .getErr .noFile false] := by decide
+
 /-- the second line of defence (`restoresBackup`), on a directory the store itself no longer produces: the current data
     file is missing from the main directory and present in oldat/ — it is moved back, not shadowed, nothing is lost -/
 theorem create_cur_restores :
@@ -492,5 +650,16 @@ theorem readd_after_queued_invalid_claimed :
     (AL.get (specFinal (toyEnv true) init {} readdHistory).m (keyOf (hashW blkX'))).map (fun e => (e.raw, e.height, e.tainted))
       = some (blkX', 11, false) := by decide
 
-end GocoinV.Props.C16
+/-- add A as trusted, flush, BlockInvalid(A) — the call panics ("Trusted block cannot be invalid"), the store is unchanged —, get A -/
+def panicHistory : List Op :=
+  [.reopen optsW, .add (hashW blkA) 10 1 true blkA, .idle, .invalid (hashW blkA), .get (hashW blkA)]
 
+set_option maxRecDepth 1000000 in
+/-- second audit, item 1c: a BlockInvalid that panics does not taint the entry (`Spec.panics`): the specification keeps
+    DEMANDING the block afterwards, and the model returns it. (On the real code the panic leaves db.mutex locked, so the
+    harness ends a history there; the model continues.) -/
+theorem panicking_invalid_keeps_claim :
+    (run (toyEnv true) init panicHistory).2.drop 3 = [.panic, .data blkA true] ∧
+    (specRunR (toyEnv true) init {} panicHistory).drop 3 = [.nothing, .data blkA true] := by decide
+
+end GocoinV.Props.C16
